@@ -39,6 +39,7 @@ def gen_original_map(rng, code):
     prev = [0, 0, 0, 0, 0]
     out_lines = []
     toks = []
+    sourceless = rng.random() < 0.3
     for li, line in enumerate(lines):
         if rng.random() < 0.15:
             out_lines.append("")
@@ -49,6 +50,11 @@ def gen_original_map(rng, code):
         parts = []
         pc = 0
         for c in cols:
+            if sourceless and rng.random() < 0.25:
+                # a segment without a source (one field): the generated column only
+                parts.append(vlq(c - pc))
+                pc = c
+                continue
             si = rng.randrange(nsrc)
             sl = rng.randrange(0, 200)
             sc = rng.randrange(0, 80)
